@@ -18,7 +18,7 @@ ASSUMPTIONS = ["oracle hedmon/oracle/schema_xml.py reads the bundled XML with xm
                "extension words (Zzqext, Qqmore) are not schema terms in any bundled schema"]
 MIN_MONITOR_EVALS = {"same-node": 5000, "forms": 5000, "suffix-verbatim": 2000, "inverse-idempotent": 5000,
                      "bulk-convert": 1000, "generated-schema-node": 500, "entry-of-this-schema": 5000,
-                     "interleaved-versions": 500, "placeholder-child-lookup": 500, "respelled-object": 1000, "rebased-object": 1000}
+                     "interleaved-versions": 500, "placeholder-child-lookup": 500, "respelled-object": 1000, "rebased-object": 1000, "re-identified-by-validator": 300}
 WATCHDOG_S = {"quick": 900, "thorough": 3600}
 # (the last ones: several levels, with letters whose case-folded form is longer than the letter)
 VALUES = ["/3", "/3 s", "/Abc-1", "/XyZ 1", "/#", "/7.5 mV", "/Stra\u00dfe/Nummer5", "/\ufb01ne/x 1/y"]
@@ -251,6 +251,35 @@ def run_shard(shard, rec):
                 rng.setstate(state)                      # identical spellings and suffixes under both versions
                 rec.mon("interleaved-versions")
                 check_node(schema, "", oracle.by_short[nm], rng, 2, rec, v, entries, [])
+        # an annotation built under one version and then validated by a validator of the other: the validator's
+        # schema has the last word on which node each tag is
+        from hed.models.hed_string import HedString
+        from hed.validator.hed_validator import HedValidator
+        for (v1, o1, s1, _e1), (v2, o2, s2, _e2) in ((pair[0], pair[1]), (pair[1], pair[0])):
+            validator = HedValidator(s2)
+            only1 = sorted(set(o1.by_short) - set(o2.by_short))[:40]
+            for nm in names + only1:
+                node1 = o1.by_short[nm]
+                node2 = o2.by_short.get(nm)
+                text = node1.name
+                case = dict(schema=f"{v1}->{v2}", ns="", text=text, node=node1.path)
+                rec.mon("re-identified-by-validator")
+                rec.case((f"{v1}->{v2}", "", text), True)
+                try:
+                    hs = HedString(text, s1)
+                    validator.validate(hs, False)
+                    t = hs.get_all_tags()[0]
+                    if node2 is None:
+                        ok = not t.tag_exists_in_schema()
+                    else:
+                        ok = (t.long_tag == node2.path and t.short_tag == node2.name and t.base_tag == node2.path
+                              and t.tag_exists_in_schema() and t._schema_entry is s2.tags.get(t._schema_entry.name))
+                except Exception as ex:  # noqa
+                    rec.violation(f"validating an annotation built under another version raised {type(ex).__name__}", case)
+                    continue
+                if not ok:
+                    rec.violation("after validation under another schema a tag still names the node of the schema it was built with",
+                                  case)
         rec.count("schema", f"{va}<->{vb}", len(names))
     else:
         from hed.schema import from_string
